@@ -116,7 +116,7 @@ def h_additive_full_grid(ctx, ns, r):
     ctx.claim('additive_function_reproduced', ctx.all_([ctx.eq(F[i], y[j]) for j, i in enumerate(I)]))
 
 
-def h_func(ctx, m, n, d):
+def h_func(ctx, m, n, d, zero_lamb=False):
     """Functional variant: the interpolant of the returned coefficient cores
     equals fitted constant + sum of fitted 1-D Chebyshev expansions; the fitted
     coefficients satisfy the ridge normal equations."""
@@ -125,8 +125,11 @@ def h_func(ctx, m, n, d):
         ctx.assume(ctx.ge(v, -1))
         ctx.assume(ctx.le(v, 1))
     y = vec(ctx, 'y', m)
-    lamb = ctx.real('lamb')
-    ctx.assume(ctx.gt(lamb, 0))
+    if zero_lamb:
+        lamb = 0.                     # regularisation switched off (plain least squares; m >= n, generic points)
+    else:
+        lamb = ctx.real('lamb')
+        ctx.assume(ctx.gt(lamb, 0))
     A = teneva.ANOVA_func(X, y, n, -1., 1., lamb)
     cfs = A.coeffs
     y0 = _mean(list(y))
@@ -200,6 +203,7 @@ def instances(tier):
         # the ridge matrix A^T A + lamb I is positive definite for lamb > 0; its determinant is
         # treated as a generic (non-zero) divisor instead of asking the solver to prove definiteness
         out.append({'func': 'h_func', 'params': {'m': m, 'n': n, 'd': d}, 'opts': {'generic_divisors': True}})
+    out.append({'func': 'h_func', 'params': {'m': 2, 'n': 2, 'd': 2, 'zero_lamb': True}, 'opts': {'generic_divisors': True}})
     return out
 
 
